@@ -110,9 +110,10 @@ type txnState struct {
 	// untracked: when the transaction began, the oracle's read watermark had already
 	// passed its read ts, so the watermark cannot hold conflict-history pruning back for
 	// it (used only to classify a missed conflict, never to judge)
-	untracked bool
-	bg        chan error
-	bgStart  uint64
+	untracked  bool
+	bg         chan error
+	bgStart    uint64
+	histBefore []uint64 // oracle's retained conflict history (commit ts) just before Commit was called
 }
 
 type Exec struct {
@@ -127,7 +128,7 @@ type Exec struct {
 	closed   bool
 	// statistics
 	Commits, Conflicts, SpuriousConflicts, MustConflicts, Reads int
-	ConcurrentCommit                                          bool // some commit landed inside another txn's lifetime
+	ConcurrentCommit                                            bool // some commit landed inside another txn's lifetime
 }
 
 func (x *Exec) addf(class, sig, format string, a ...any) {
@@ -343,8 +344,10 @@ func (x *Exec) txnStep(ti int, op string) (err error) {
 		t.open = false
 		x.Outcome = append(x.Outcome, fmt.Sprintf("%d.discard", ti))
 	case "commit":
+		_, _, _, _, t.histBefore = x.db().VerifOracleInfo()
 		x.finishCommit(ti, t, t.t.Commit())
 	case "commitwith":
+		_, _, _, _, t.histBefore = x.db().VerifOracleInfo()
 		ch := make(chan error, 1)
 		t.t.CommitWith(func(e error) { ch <- e })
 		select {
@@ -354,6 +357,7 @@ func (x *Exec) txnStep(ti int, op string) (err error) {
 			return errors.New("CommitWith callback did not run within 20s")
 		}
 	case "commitbg":
+		_, _, _, _, t.histBefore = x.db().VerifOracleInfo()
 		t.bg = make(chan error, 1)
 		t.bgStart = x.db().VerifNextTxnTs()
 		go func(tt *NoKV.Txn, ch chan error) {
@@ -610,13 +614,24 @@ func (x *Exec) finishCommit(ti int, t *txnState, err error) {
 	hasWrites := len(t.pending) > 0
 	// C03 (2): which read keys were overwritten by a commit after the read ts?
 	var overwritten []string
+	retained := map[uint64]bool{}
+	for _, ts := range t.histBefore {
+		retained[ts] = true
+	}
+	allPruned := true // every conflicting commit had already been dropped from the oracle's conflict history
 	for k, how := range t.readKeys {
+		hit := false
 		for i := range x.log {
 			c := &x.log[i]
 			if c.ts > t.readTs {
 				if _, ok := c.writes[k]; ok {
-					overwritten = append(overwritten, how+":"+k)
-					break
+					if !hit {
+						overwritten = append(overwritten, how+":"+k)
+					}
+					hit = true
+					if retained[c.ts] {
+						allPruned = false
+					}
 				}
 			}
 		}
@@ -646,8 +661,12 @@ func (x *Exec) finishCommit(ti int, t *txnState, err error) {
 				how = "scan"
 			}
 			untr := ""
-			if t.untracked {
-				untr = " reader-untracked-by-read-watermark"
+			if allPruned {
+				// mechanism: the commit it conflicts with was pruned from the conflict history
+				untr = " conflict-history-pruned"
+				if t.untracked {
+					untr += " reader-untracked-by-read-watermark"
+				}
 			}
 			x.addf("conflict", "missed-conflict read="+how+untr+x.ctx(t), "transaction %d (read ts %d) committed although %v was overwritten by a commit after its read ts", ti, t.readTs, overwritten)
 		}
@@ -823,7 +842,7 @@ func (x *Exec) scanAll(when string, committing *txnState, ti int) uint64 {
 		x.addf("order", sig, "transaction %d committed at version %d, but version %d had already been committed", ti, v, x.Env.LastVersion)
 	}
 	// visibility: a fresh reader must see every write
-	if v != 0 {
+	if v != 0 && x.Env.ScanAll { // C04 only: the probe transaction changes the oracle's read watermark
 		rt := db.NewTransaction(false)
 		if rt.ReadTs() < v {
 			x.addf("visible", "commit-not-visible-to-new-txn", "commit of transaction %d at version %d was acknowledged but a new transaction got read ts %d", ti, v, rt.ReadTs())
